@@ -71,6 +71,14 @@ def run(ctx):
     H.log(p.stdout.strip().splitlines()[-1])
     verdict, vs = ctx.validate("C07Trace.tla", "C07_trace.cfg", trace)
     nviol, known = H.report(ctx, verdict["bad"], lambda i: cases[i], trace)
+    if os.environ.get("H5V_HIST"):
+        import collections
+        hist = collections.Counter()
+        for b in verdict["bad"]:
+            for it in b.get("items", []):
+                hist[(it.get("diag"), it.get("site"), str(it.get("why"))[:70])] += 1
+        for k, n in hist.most_common(40):
+            H.log("HIST %4d %s" % (n, k))
     st = verdict["stats"]
     # object header chains: every small shape TLC derives from HeaderChain.tla as real bytes (panic / hang = violation)
     hfatal, hcases, htrace, hcov = hdrchain.run_family(ctx, thorough)
